@@ -30,6 +30,7 @@ type Profile struct {
 	Interleave         bool // non-INCMP instructions between INCMP lines
 	TailMove           bool // MOVE after the INCMP list
 	TailCall           bool // LOAD/RELOAD as the last instruction, behind the INCMP list
+	CatchLoads         bool // a catch node that LOADs a symbol (needs CatchVariants)
 	Relative           bool // _ ^ . > < targets
 	EmptyResults       bool
 	FlagCounts         []uint32
@@ -529,6 +530,9 @@ func (g *gen) catchNode(names []string) *Node {
 		if g.p.EndNodes && r.Chance(1, 3) {
 			variant = 6 + r.Intn(2) // the error handler is itself an end node
 		}
+		if g.p.CatchLoads && len(g.syms) > 0 && r.Chance(1, 4) {
+			variant = 8 // the error handler loads a symbol itself (and that load may fail)
+		}
 	}
 	switch variant {
 	case 0:
@@ -547,6 +551,13 @@ func (g *gen) catchNode(names []string) *Node {
 		n.Code = []codec.Ins{{Op: codec.MOUT, S1: "lback", S2: "0"}} // ends without HALT
 	case 7:
 		n.Code = []codec.Ins{} // a page and nothing else
+	case 8:
+		sy := vk.Pick(r, g.syms)
+		if sy.sink {
+			n.Code = []codec.Ins{{Op: codec.MOUT, S1: "lback", S2: "0"}, {Op: codec.HALT}, {Op: codec.INCMP, S1: "_", S2: "*"}}
+		} else {
+			n.Code = []codec.Ins{{Op: codec.LOAD, S1: sy.name, N: sy.size}, {Op: codec.MOUT, S1: "lback", S2: "0"}, {Op: codec.HALT}, {Op: codec.INCMP, S1: "_", S2: "*"}}
+		}
 	}
 	return n
 }
